@@ -129,6 +129,104 @@ theorem merge_modified_roundtrip_partial (tree : List TFile) (hashes : List (Str
   rw [mmLoop_spec tree hid hashes hp [] (by simp)]
   simp
 
+/-- the excluded family of `merge_modified_roundtrip_partial` is a real failure of
+the modelled code: a recorded hash that is the file's sha1 followed by CR is NOT
+the file's current sha1 (so the record should be dropped), but is read back as
+that sha1 and reported.  (File ids with CR cannot occur: the working tree
+refuses them at `add` — exercised as an excluded input.) -/
+theorem merge_modified_witness :
+    ∃ (tree : List TFile) (hashes : List (Str × Str)),
+      (tree.map (·.fileId)).Nodup ∧ (hashes.map Prod.fst).Nodup ∧ (∀ f ∈ tree, crSafe f.fileId) ∧
+      hashes.filter (mmKeep tree) = [] ∧
+      getMergeModified tree (some (setMergeModified tree hashes)) = .ok [(['a'], ['7', 'd'])] :=
+  ⟨[⟨['a'], ['i'], some ['7', 'd']⟩], [(['a'], ['7', 'd', '\r'])], by decide, by decide, by decide, by decide, rfl⟩
+
+/-- `merge_modified()` never invents a record: whatever it reports after
+`set_merge_modified(hashes)` is one of the stored (path, hash) pairs, and its
+path is versioned with exactly that current sha1 (so directories, symlinks and
+files missing on disk — `sha = none` — are never reported) -/
+theorem merge_modified_sound_partial (tree : List TFile) (hashes : List (Str × Str))
+    (hid : (tree.map (·.fileId)).Nodup) (hp : (hashes.map Prod.fst).Nodup)
+    (ht : ∀ f ∈ tree, crSafe f.fileId) (hh : ∀ ph ∈ hashes, crSafe ph.2) :
+    ∃ d, getMergeModified tree (some (setMergeModified tree hashes)) = .ok d ∧
+      ∀ ph ∈ d, ph ∈ hashes ∧ ∃ f ∈ tree, f.path = ph.1 ∧ f.sha = some ph.2 := by
+  refine ⟨_, merge_modified_roundtrip_partial tree hashes hid hp ht hh, ?_⟩
+  intro ph hph
+  obtain ⟨hmem, hk⟩ := List.mem_filter.mp hph
+  refine ⟨hmem, ?_⟩
+  unfold mmKeep at hk
+  split at hk
+  · rename_i f hf
+    refine ⟨f, List.mem_of_find?_eq_some hf, ?_, ?_⟩
+    · have := List.find?_some hf; simpa using this
+    · exact (of_decide_eq_true hk).symm
+  · cases hk
+
+/-- `resolve(action="done")` is the general loop with an action every class handles -/
+theorem resolveDone_eq_resolveWith (tree : List (Str × Str)) (paths : Option (List Str)) (recurse : Bool)
+    (file : Option Str) :
+    resolveDone tree paths recurse file = resolveWith (fun _ => true) tree paths recurse file := by
+  unfold resolveDone resolveWith
+  cases getConflicts file with
+  | error e => rfl
+  | ok cs =>
+    have hnil : ∀ l : List Conflict, l.filter (fun c => !(fun _ => true) c) = [] := by
+      intro l; simp
+    cases paths <;> simp only [hnil, List.append_nil]
+
+/-- `resolve` with ANY action: the tree afterwards lists the not-selected
+conflicts followed by those selected conflicts whose class does not implement
+the action (`NotImplementedError`), each in its original order — no conflict is
+dropped unless it was selected and handled, none is duplicated or altered -/
+theorem resolve_with_partial (handles : Conflict → Bool) (tree : List (Str × Str)) (paths : List Str)
+    (recurse : Bool) (cs : List Conflict) (h : ∀ c ∈ cs, c.wf = true ∧ c.crSafe) :
+    ∃ file, setConflicts cs = some file ∧
+      (∃ file', resolveWith handles tree (some paths) recurse (some file) = .ok (some file') ∧
+        getConflicts (some file') = .ok
+          (cs.filter (fun c => !isSelected paths (treeIds tree paths) recurse c)
+            ++ (cs.filter fun c => isSelected paths (treeIds tree paths) recurse c).filter fun c => !handles c))
+      ∧ (∃ file', resolveWith handles tree none recurse (some file) = .ok (some file') ∧
+        getConflicts (some file') = .ok (cs.filter fun c => !handles c)) := by
+  obtain ⟨file, h1, h2⟩ := conflicts_roundtrip_partial cs h
+  refine ⟨file, h1, ?_, ?_⟩
+  · have hk : ∀ c ∈ cs.filter (fun c => !isSelected paths (treeIds tree paths) recurse c)
+          ++ (cs.filter fun c => isSelected paths (treeIds tree paths) recurse c).filter (fun c => !handles c),
+        c.wf = true ∧ c.crSafe := by
+      intro c hc
+      rcases List.mem_append.mp hc with hc | hc
+      · exact h c (List.mem_filter.mp hc).1
+      · exact h c (List.mem_filter.mp (List.mem_filter.mp hc).1).1
+    obtain ⟨file', h3, h4⟩ := conflicts_roundtrip_partial _ hk
+    refine ⟨file', ?_, h4⟩
+    unfold resolveWith
+    rw [h2]
+    have hp := select_partition tree paths recurse cs
+    simp only at hp ⊢
+    rw [hp.1, hp.2.1, h3]
+  · have hk : ∀ c ∈ cs.filter (fun c => !handles c), c.wf = true ∧ c.crSafe :=
+      fun c hc => h c (List.mem_filter.mp hc).1
+    obtain ⟨file', h3, h4⟩ := conflicts_roundtrip_partial _ hk
+    refine ⟨file', ?_, h4⟩
+    unfold resolveWith
+    rw [h2]
+    simp only [List.nil_append, h3]
+
+/-- with an action no class implements nothing is lost: the stored list is a
+permutation of the original one -/
+theorem resolve_unhandled_keeps_all_partial (tree : List (Str × Str)) (paths : List Str)
+    (recurse : Bool) (cs : List Conflict) (h : ∀ c ∈ cs, c.wf = true ∧ c.crSafe) :
+    ∃ file file' cs', setConflicts cs = some file ∧
+      resolveWith (fun _ => false) tree (some paths) recurse (some file) = .ok (some file') ∧
+      getConflicts (some file') = .ok cs' ∧ cs'.Perm cs := by
+  obtain ⟨file, h1, ⟨file', h2, h3⟩, _⟩ := resolve_with_partial (fun _ => false) tree paths recurse cs h
+  refine ⟨file, file', _, h1, h2, h3, ?_⟩
+  have hself : ∀ l : List Conflict, l.filter (fun c => !(fun _ => false) c) = l := by
+    intro l; simp
+  rw [hself]
+  have := List.filter_append_perm (fun c => isSelected paths (treeIds tree paths) recurse c) cs
+  refine List.Perm.trans (List.perm_append_comm) ?_
+  simpa using this
+
 -- non-vacuity: a list with a multi-line path, a tab, `": "`, non-ASCII and all optional attributes
 example :
     let cs : List Conflict :=
@@ -138,6 +236,12 @@ example :
        ⟨.missParent, "d".toList, none, none, some "Created directory".toList, none⟩]
     ∀ c ∈ cs, c.wf = true ∧ c.crSafe := by decide
 example : ¬ crSafe ['a', '\r'] ∧ ¬ crSafe "a\r\nb".toList ∧ crSafe "a\rb".toList := by decide
+-- non-vacuity of the merge-hash theorems: a file, a directory (no sha1), a multi-line hash, an unversioned path
+example :
+    let tree : List TFile := [⟨"a".toList, "a-id".toList, some "7d".toList⟩, ⟨"dir".toList, "d-id".toList, none⟩]
+    let hashes : List (Str × Str) := [("a".toList, "7d".toList), ("dir".toList, "7d".toList), ("zz".toList, "x\ny: z".toList)]
+    (tree.map (·.fileId)).Nodup ∧ (hashes.map Prod.fst).Nodup ∧ (∀ f ∈ tree, crSafe f.fileId)
+      ∧ (∀ ph ∈ hashes, crSafe ph.2) ∧ hashes.filter (mmKeep tree) = [("a".toList, "7d".toList)] := by decide
 example : StanzaOk [(tFileId, "x\ny".toList), (tHash, "00ff".toList)] := by
   refine ⟨by simp, ?_⟩; decide
 example : isInside "a".toList "a/b".toList = true ∧ isInside "a".toList "ab".toList = false
